@@ -100,6 +100,11 @@ CLAIMED = {
    text="Histories of 2..40 renders/reparses over 4..7 templates (some failing part-way depending on the bindings) and 2..4 environments that are realised once and shared by reference; after every step every environment's deep fingerprint (including spare slice capacity) must be unchanged, the render must equal its first result and the result on a fresh engine with fresh equal bindings, and a probe of all assignable and loop variables must render as with fresh bindings.",
    note="Trusted: hx.Fingerprint (reflect-based deep walk incl. unexported fields, pointer targets and slice capacity). The template object's immutability is observed through its outputs, not by inspecting its memory.",
    ref="DESIGN.md 7.C03"),
+ "C04": dict(
+   technique="property-based testing under the Go race detector: rapid-generated concurrent parse/render workloads on shared engine, templates and bindings, each case a subtest so that a race report is attributed to it; differential oracle against the sequential results",
+   text="Generated workloads of 2..32 goroutines (barrier-released, GOMAXPROCS 2/4/16) parse and render 1..5 templates covering every standard tag and every standard filter on one engine, one set of parsed templates and one shared binding environment with Drops, pointers and spare capacity; the race detector must stay silent and every concurrent result must equal the same operation run alone beforehand.",
+   note="Schedules are sampled, not enumerated; the race detector's happens-before analysis makes detection of an executed unsynchronised access pair independent of timing, but a race on a path no generated template executes is out of reach. The static half of the quantifier ('no render-time closure writes a compile-time variable') is a static-analysis obligation outside this technique family and is not claimed. The detector reports each stack pair once per process, so cases grow in size with their index and the first reporting case is kept as the replay.",
+   ref="DESIGN.md 7.C04"),
 }
 
 REASON_PENDING = "check not built yet in this snapshot of /verif (planned: see DESIGN.md section 7); nothing is claimed for it"
